@@ -85,5 +85,8 @@ Step(ev, s) ==
                               THEN { [s EXCEPT !.dcount[ev.p] = 1] } ELSE {}
     \* the end of the execution: everything without a handle has been released
     [] ev.op = "end" -> IF ev.verdict = "done" /\ s.kind = "ptr" /\ \E p \in 1..4 : Holders(s, p) = 0 /\ s.dcount[p] # 1 THEN {} ELSE { s }
+    \* native stress (harness/conc/stress_rc.cpp): really parallel threads copied and dropped handles of one object through every
+    \* copy path; it was destroyed exactly once, after its last handle (destroyed = 1, never early), and every access saw it intact
+    [] ev.op = "stress" -> IF ev.destroyed = 1 /\ ev.early = 0 /\ ev.bad = 0 THEN { s } ELSE {}
     [] OTHER -> { s }
 ================================================================================
